@@ -439,3 +439,67 @@ Proof.
   - split; auto. intros _. split; [exact Hne|]. right.
     apply slice_ref_none_iff in Er as [_ Hr]. rewrite bytes_of_length in Hr by exact Hv2. lia.
 Qed.
+
+(* ------------------------------------------------------------------ statements used by Props/C20.v *)
+
+(* C20_try_from *)
+Theorem try_from_exact k b :
+  try_from_k k b = str_from_utf8 b /\
+  (forall x, try_from_k k b = Some x <-> valid b = true /\ as_bytes x = b) /\
+  (try_from_k k b = None <-> valid b = false).
+Proof.
+  split; [apply try_from_k_str|]. split; [intros x; apply try_from_k_some|apply try_from_k_none].
+Qed.
+
+(* the infallible constructors keep the bytes of the str they are given *)
+Theorem from_exact k s : valid s = true ->
+  as_bytes (from_k k s) = s /\ valid (deref (from_k k s)) = true /\ valid (deref new) = true.
+Proof. intros H. rewrite from_k_id. unfold as_bytes, deref. auto. Qed.
+
+(* C20_split_panics_iff (None = panic), for the ByteString and for the str it derefs to *)
+Theorem split_panics_iff x mid :
+  (split_at x mid = None <-> (length x < mid)%nat \/ boundary x mid = false) /\
+  (split_at x mid = None <-> str_split_at (deref x) mid = None).
+Proof. split; [apply split_at_none_iff|now rewrite split_at_str]. Qed.
+
+(* C20_split_agrees: same halves as str::split_at, they concatenate to x, and they are valid *)
+Theorem split_agrees x mid a b : valid x = true -> split_at x mid = Some (a, b) ->
+  str_split_at (deref x) mid = Some (a, b) /\ a = firstn mid x /\ b = skipn mid x /\ a ++ b = x /\
+  valid a = true /\ valid b = true.
+Proof.
+  intros Hv H. pose proof (split_at_valid _ _ _ _ Hv H) as [Ha Hb].
+  pose proof H as H2. rewrite split_at_str in H2.
+  apply split_at_some in H as (_ & _ & E1 & E2 & E3). auto 10.
+Qed.
+
+(* C20_slice: `&x[a..b]` and `x.slice_ref(&x[a..b])` *)
+Theorem slice_agrees x a b : valid x = true ->
+  (str_slice (deref x) a b = None <->
+     (b < a)%nat \/ boundary x a = false \/ boundary x b = false) /\
+  (forall l, str_slice (deref x) a b = Some l ->
+     valid l = true /\ l = firstn (b - a) (skipn a x) /\
+     slice_ref x (Z.of_nat a) (length l) = Some l).
+Proof.
+  intros Hv. split; [apply str_slice_none_iff|]. intros l H. split; [eapply str_slice_valid; eauto|].
+  split; [|exact (slice_ref_of_slice x a b l H)].
+  apply str_slice_some in H. tauto.
+Qed.
+
+(* C20_agree *)
+Theorem agree x y :
+  eq x y = str_eq (deref x) (deref y) /\ (eq x y = true <-> x = y) /\
+  cmp x y = str_cmp (deref x) (deref y) /\ (cmp x y = Eq <-> x = y) /\
+  cmp y x = CompOpp (cmp x y) /\
+  eq x y = match cmp x y with Eq => true | _ => false end /\
+  hash_input x = str_hash_input (deref x) /\ (hash_input x = hash_input y -> x = y) /\
+  display x = str_display (deref x) /\ to_string x = str_to_string (deref x) /\
+  into_string x = deref x /\ from_string (into_string x) = x /\ into_bytes x = as_bytes x.
+Proof.
+  unfold eq, cmp, str_eq, str_cmp, deref, display, to_string, into_string, from_string,
+    str_to_string, str_display, into_bytes, as_bytes.
+  repeat split; auto using bytes_cmp_antisym, bytes_cmp_eqb, hash_input_inj;
+    try apply bytes_eqb_eq; try apply bytes_cmp_eq.
+Qed.
+
+Theorem cmp_trans x y z : cmp x y = Lt -> cmp y z = Lt -> cmp x z = Lt.
+Proof. apply bytes_cmp_lt_trans. Qed.
